@@ -44,3 +44,45 @@ package tbls
 //@ callreq complete.Recover: a1 == rawSigns && a2 == rawIDs && len(rawSigns) == len(partialSignaturesByIndex) && len(rawIDs) == len(partialSignaturesByIndex)
 //@ ensures r1 == nil ==> ncalls(id.SetDecString) == len(partialSignaturesByIndex) && ncalls(signature.Deserialize) == len(partialSignaturesByIndex) && ncalls(complete.Recover) == 1 && ncalls(id.SetHexString) == 0
 //@ loop 1 invariant len(rawSigns) == $i && len(rawIDs) == $i && ncalls(id.SetDecString) == $i && ncalls(signature.Deserialize) == $i && ncalls(complete.Recover) == 0 && ncalls(id.SetHexString) == 0
+
+// ---- package-level entry points: thin delegations to the selected implementation --------------------
+// Each wrapper returns exactly what the implementation returns for exactly the arguments it was given
+// (no caching, no argument rewriting). The implementation methods are named as functions of their arguments
+// for this purpose only (ThresholdSplit and key generation are randomised: one call per wrapper call).
+//@ pure Implementation.SecretToPublicKey Implementation.ThresholdSplit Implementation.RecoverSecret Implementation.RecoverPubkey Implementation.ThresholdAggregate Implementation.Verify Implementation.Sign Implementation.VerifyAggregate Implementation.Aggregate
+
+//@ func SecretToPublicKey
+//@ props C08
+//@ ensures r0 == res(0, impl.SecretToPublicKey(secret)) && r1 == res(1, impl.SecretToPublicKey(secret))
+
+//@ func ThresholdSplit
+//@ props C08
+//@ ensures r0 == res(0, impl.ThresholdSplit(secret, total, threshold)) && r1 == res(1, impl.ThresholdSplit(secret, total, threshold))
+
+//@ func RecoverSecret
+//@ props C08
+//@ ensures r0 == res(0, impl.RecoverSecret(shares, total, threshold)) && r1 == res(1, impl.RecoverSecret(shares, total, threshold))
+
+//@ func RecoverPubkey
+//@ props C08
+//@ ensures r0 == res(0, impl.RecoverPubkey(shares)) && r1 == res(1, impl.RecoverPubkey(shares))
+
+//@ func ThresholdAggregate
+//@ props C08
+//@ ensures r0 == res(0, impl.ThresholdAggregate(partialSignaturesByIndex)) && r1 == res(1, impl.ThresholdAggregate(partialSignaturesByIndex))
+
+//@ func Verify
+//@ props C08
+//@ ensures result == impl.Verify(compressedPublicKey, data, signature)
+
+//@ func Sign
+//@ props C08
+//@ ensures r0 == res(0, impl.Sign(privateKey, data)) && r1 == res(1, impl.Sign(privateKey, data))
+
+//@ func VerifyAggregate
+//@ props C08
+//@ ensures result == impl.VerifyAggregate(shares, signature, data)
+
+//@ func Aggregate
+//@ props C08
+//@ ensures r0 == res(0, impl.Aggregate(signs)) && r1 == res(1, impl.Aggregate(signs))
